@@ -11,6 +11,8 @@ DiamondI(m) == CASE m = "a" -> <<"b", "c">> [] m = "b" -> <<"d">> [] m = "c" -> 
 CycleI(m) == CASE m = "a" -> <<"b">> [] m = "b" -> <<"c">> [] m = "c" -> <<"a">> [] OTHER -> <<>>
 TwoI(m) == CASE m = "a" -> <<"c">> [] m = "b" -> <<"c", "d">> [] OTHER -> <<>>
 InjectI(m) == CASE m = "a" -> <<"b">> [] m = "i" -> <<"c">> [] OTHER -> <<>>
+PairI(m) == CASE m = "a" -> <<"c">> [] m = "b" -> <<"c">> [] OTHER -> <<>>
+InjSmallI(m) == CASE m = "i" -> <<"b">> [] OTHER -> <<>>
 
 GraphsAll == <<
   Gr("chain", {"a", "b", "c"}, Imp({"a", "b", "c"}, ChainI), <<"a">>, <<>>),
@@ -18,7 +20,10 @@ GraphsAll == <<
   Gr("cycle", {"a", "b", "c"}, Imp({"a", "b", "c"}, CycleI), <<"a">>, <<>>),
   Gr("two-entries", {"a", "b", "c", "d"}, Imp({"a", "b", "c", "d"}, TwoI), <<"a", "b">>, <<>>),
   Gr("inject", {"a", "b", "c", "i"}, Imp({"a", "b", "c", "i"}, InjectI), <<"a">>, <<"i">>) >>
-GraphsQuick == <<GraphsAll[1], GraphsAll[4], GraphsAll[5]>>
+GraphsQuick == <<
+  Gr("chain", {"a", "b", "c"}, Imp({"a", "b", "c"}, ChainI), <<"a">>, <<>>),
+  Gr("pair", {"a", "b", "c"}, Imp({"a", "b", "c"}, PairI), <<"a", "b">>, <<>>),
+  Gr("inject-small", {"a", "b", "i"}, Imp({"a", "b", "i"}, InjSmallI), <<"a">>, <<"i">>) >>
 
 AllFaults == {"none", "parse-panic", "print-panic", "chunk-panic", "load-error", "start-error", "cancel"}
 
